@@ -729,7 +729,8 @@ impl<const LEVELS: usize> OrderBook<LEVELS> {
     /// maintains the same id.
     ///
     /// If the price/vol are None then the original
-    /// price/vol are kept.
+    /// price/vol are kept. A modification to a price that
+    /// is not a multiple of the tick-size is ignored.
     ///
     /// # Arguments
     ///
@@ -745,6 +746,12 @@ impl<const LEVELS: usize> OrderBook<LEVELS> {
         new_price: Option<Price>,
         new_vol: Option<Price>,
     ) {
+        // Prices not on the tick grid are rejected at creation,
+        // likewise ignore modifications to such a price
+        if new_price.is_some_and(|p| p % self.tick_size != 0) {
+            return;
+        }
+
         let mut order_entry = self.orders[order_id];
 
         if order_entry.order.status == Status::Active {
